@@ -8,6 +8,7 @@
 //
 // answer of the scheduled commands: `<result> P=.. C=.. sP=.. sC=.. len=..` (see lean/Drivers/MpmcD.lean)
 // answer of stress: `stress left=<k> | <consumer 0 log> | <consumer 1 log> ...`, a log is `p.seq,p.seq,...` in pop order
+#include <unistd.h>
 #include "mpmc_hook.hpp"
 #define class struct		// ff_unbounded_queue keeps its queue in the default-private part of a `class`; the header includes nothing
 #include <fix8/ff_wrapper.hpp>
@@ -345,5 +346,6 @@ int main()
 		catch (const std::exception&) { out("bad"); }
 	}
 	s.quit();
-	return 0;
+	std::fflush(stdout);
+	_exit(0);
 }
